@@ -576,7 +576,8 @@ fn families(thorough: bool) -> Vec<Prog> {
     //          construct that calls it (for, @, ?, $, $], partition, manual pulls, a call) declares
     //          locals spelled like run-time names of the caller, which the caller uses while
     //          (loop bodies, callbacks) and after the construct runs
-    for n in &names {
+    // (the iterator factory and the drivers have names of their own - i, acc, r, g, a, b, e - which are not used as the tested name)
+    for n in names.iter().filter(|n| !["i", "acc", "r", "g", "a", "b", "e"].contains(*n)) {
         let it = format!("mk := () -> () -> (bool, int) {{ i := mut 0; return () -> (bool, int) {{ {n} := 3; i += 1; if *i <= 2 {{ return (true, {n}) }}; return (false, 0) }} }}");
         let drivers: Vec<(&str, String, &str)> = vec![
             ("for over a user iterator", format!("acc := mut 0; for e in mk() {{ acc += {n} }}; (*acc, {n})"), "(600, 300)"),
